@@ -18,7 +18,9 @@ const ipv6Full = `(` + ipv6Address + `(` + ipv4Address + `))` +
 	`|(` + ipv6Address + `)` + `|(` + ipv6Compressed + `)`
 const optionalPort = `(:\d{1,5})?`
 const addressPattern = `((` + ipv4Address + `)|(\[(` + ipv6Full + `)\])|(` + ipv6Full + `))` + optionalPort
-const fullAddrPattern = `(^|\s|[^\w:])` + addressPattern + `(\s|(:\s)|[^\w:]|$)`
+// The delimiter classes are spelled out rather than written [^\w:] because \w
+// includes '_', which is punctuation for our purposes ("peer_1.2.3.4").
+const fullAddrPattern = `(^|\s|[^0-9A-Za-z:])` + addressPattern + `(\s|(:\s)|[^0-9A-Za-z:]|$)`
 
 var scrubberPatterns = []*regexp.Regexp{
 	regexp.MustCompile(fullAddrPattern),
